@@ -237,9 +237,9 @@ pub fn v110_case(npk: usize, nwait: usize, variant: usize) -> Case {
 }
 
 /// 0.4.18 -> 0.4.20 and 0.4.20 -> 1.0.0: field-by-field translation of the configuration.
-pub fn old_paths_case(which: usize, flag: bool) -> Case {
+pub fn old_paths_case(which: usize, flag: bool, shape: u8) -> Case {
     Case {
-        name: format!("mig:old:{which}:{flag}"),
+        name: format!("mig:old:{which}:{flag}:shape{shape}"),
         run: Box::new(move |f: &Filter, _mw: bool| {
             let cfg = CfgSpec::base();
             let fee = Uint128::new(symcore::var("fee_rate"));
@@ -248,7 +248,20 @@ pub fn old_paths_case(which: usize, flag: bool) -> Case {
             let who = chain.who.clone();
             let env = chain.env.clone();
             if which == 0 {
-                let old = old_config_0418(&who, fee, min);
+                // shape: which optional fields of the legacy configuration are absent, and the halted flag
+                let mut old = old_config_0418(&who, fee, min);
+                if shape & 1 != 0 {
+                    old.operators = None;
+                }
+                if shape & 2 != 0 {
+                    old.monitors = None;
+                }
+                old.oracle_contract_address = if shape & 4 != 0 { Some(Addr::unchecked(who.u1.clone())) } else { None };
+                old.oracle_contract_address_v2 = if shape & 8 != 0 { Some(Addr::unchecked(who.u2.clone())) } else { None };
+                if shape & 16 != 0 {
+                    old.oracle_address = None;
+                }
+                old.stopped = shape & 32 != 0;
                 v0_4_18::CONFIG.save(&mut chain.deps.storage, &old).unwrap();
                 cw2::set_contract_version(&mut chain.deps.storage, "staking", "0.4.18").unwrap();
                 let before = dump(&chain.deps.storage);
@@ -266,7 +279,14 @@ pub fn old_paths_case(which: usize, flag: bool) -> Case {
                     claim(f, "C18:0.4.18 -> 0.4.20 touches only config and version", raw_except(&before, &dump(&chain.deps.storage), &[b"config", b"contract_info"]));
                 }
             } else {
-                let old = old_config_0420(&who, fee, min, flag);
+                let mut old = old_config_0420(&who, fee, min, flag);
+                if shape & 2 != 0 {
+                    old.monitors = None;
+                }
+                if shape & 16 != 0 {
+                    old.oracle_address = None;
+                }
+                old.stopped = shape & 32 != 0;
                 v0_4_20::CONFIG.save(&mut chain.deps.storage, &old).unwrap();
                 cw2::set_contract_version(&mut chain.deps.storage, "staking", "0.4.20").unwrap();
                 let before = dump(&chain.deps.storage);
@@ -293,7 +313,7 @@ pub fn old_paths_case(which: usize, flag: bool) -> Case {
                             && n.protocol_fee_config.treasury_address == if flag { Some(old.treasury_address.clone()) } else { None }
                             && n.liquid_stake_token_denom == old.liquid_stake_token_denom
                             && n.batch_period == old.batch_period
-                            && Some(n.monitors.clone()) == old.monitors
+                            && n.monitors == old.monitors.clone().unwrap_or_default()
                             && n.stopped == old.stopped,
                     );
                     prove(f, "C18:0.4.20 -> 1.0.0 keeps fee rate and minimum stake", t::and(&[t::eq(&t::ut(n.protocol_fee_config.dao_treasury_fee), &t::ut(fee)), t::eq(&t::ut(n.protocol_chain_config.minimum_liquid_stake_amount), &t::ut(min))]));
@@ -340,7 +360,12 @@ pub fn cases(tier: &str) -> Vec<Case> {
     }
     for which in 0..2 {
         for flag in [true, false] {
-            v.push(old_paths_case(which, flag));
+            for shape in 0..64u8 {
+                if which == 1 && shape & (1 | 4 | 8) != 0 {
+                    continue; // the 0.4.20 layout has no operators / legacy oracle slots
+                }
+                v.push(old_paths_case(which, flag, shape));
+            }
         }
     }
     v
